@@ -12,16 +12,47 @@ Definition coords_ok (pts : list (list spec_float)) : Prop :=
 Lemma f32_valid_f32v x : f32_valid x = f32v x.
 Proof. reflexivity. Qed.
 
-Lemma mk_items_ix : forall pts ws i, length pts = length ws ->
-  map ix (mk_items i pts ws) = seq (N.to_nat i) (length pts).
+(* the binary32 coordinates the algorithm works on: the images under the cast
+   of the variant (clamped to [f32::MIN, f32::MAX] or not) *)
+Definition to32c (c : bool) (pts : list (list spec_float)) : list (list spec_float) := map (map (cast32 c)) pts.
+Definition post32 (c : bool) (x : spec_float) : spec_float := if c then clamp32 x else x.
+
+Lemma cast32_post c x : cast32 c x = post32 c (f64_to_f32 x).
+Proof. destruct c; reflexivity. Qed.
+Lemma to32c_post c pts : to32c c pts = map (map (post32 c)) (to32 pts).
+Proof.
+  unfold to32c, to32. rewrite map_map. apply map_ext. intros p. rewrite map_map. apply map_ext. intros x. apply cast32_post.
+Qed.
+Lemma to32c_false pts : to32c false pts = to32 pts.
+Proof. reflexivity. Qed.
+
+Lemma clamp32_nonnan x : f32v x = true -> f32v (clamp32 x) = true.
+Proof.
+  intros H. unfold clamp32. destruct (flt x f32_min_value); [destruct (flt f32_max_value f32_min_value); reflexivity|].
+  destruct (flt f32_max_value x); [reflexivity|exact H].
+Qed.
+Lemma post32_nonnan c x : f32v x = true -> f32v (post32 c x) = true.
+Proof. destruct c; [apply clamp32_nonnan|auto]. Qed.
+
+Lemma coords_okc c pts : coords_ok pts ->
+  Forall (fun pt => Forall (fun x => f32v x = true) pt) (to32c c pts).
+Proof.
+  unfold coords_ok. rewrite to32c_post. intros H. rewrite Forall_forall in *. intros q Hq.
+  apply in_map_iff in Hq. destruct Hq as (p & <- & Hp). specialize (H p Hp).
+  rewrite Forall_forall in *. intros y Hy. apply in_map_iff in Hy. destruct Hy as (x & <- & Hx).
+  apply post32_nonnan. exact (H x Hx).
+Qed.
+
+Lemma mk_items_ix c : forall pts ws i, length pts = length ws ->
+  map ix (mk_items c i pts ws) = seq (N.to_nat i) (length pts).
 Proof.
   induction pts as [|p t IH]; intros [|w ws] i H; cbn [mk_items map length seq] in *; try discriminate; try reflexivity.
   rewrite IH by lia. f_equal. f_equal. lia.
 Qed.
-Lemma mk_items_co : forall pts ws i, length pts = length ws ->
-  map co (mk_items i pts ws) = to32 pts.
+Lemma mk_items_co c : forall pts ws i, length pts = length ws ->
+  map co (mk_items c i pts ws) = to32c c pts.
 Proof.
-  unfold to32. induction pts as [|p t IH]; intros [|w ws] i H; cbn [mk_items map length] in *; try discriminate; try reflexivity.
+  unfold to32c. induction pts as [|p t IH]; intros [|w ws] i H; cbn [mk_items map length] in *; try discriminate; try reflexivity.
   f_equal. apply IH. lia.
 Qed.
 
@@ -32,7 +63,7 @@ Theorem rcb_bisect_tree : forall v fuel sched D k tol pts ws p0 p,
   coords_ok pts ->
   rcb v fuel sched D k tol pts ws p0 = Ok p ->
   length p = length pts
-  /\ (exists t, Permutation t (combine (to32 pts) p) /\ BT D k 0%nat t)
+  /\ (exists t, Permutation t (combine (to32c (v_clamp v) pts) p) /\ BT D k 0%nat t)
   /\ (pts <> [] -> Forall (fun i => (i < 2 ^ N.of_nat k)%N) p).
 Proof.
   intros v fuel sched D k tol pts ws p0 p Hok H. unfold rcb in H.
@@ -44,20 +75,20 @@ Proof.
     + exists []. split; [constructor|]. apply bt_leaf. intros x y [].
     + intros Q; congruence.
   - cbv iota in H. set (pts := pt0 :: pts') in *.
-    destruct (bbox32 D 0 pts) as [bb|]; [|discriminate].
+    destruct (bbox32 (v_clamp v) D 0 pts) as [bb|]; [|discriminate].
     assert (Hlen : length pts = length ws) by lia.
     pose proof (rcb_core_bisect_tree spec_float flt fle (f32_mid (v_safe_mid v)) f32_sub f32_add f32_zero f32_inf
                   (tol_test tol) (v_old v) (v_by_coord v) (v_probe_max v) f32v
                   flt_irrefl flt_negtrans fle_flt
-                  fuel sched D k (mk_items 0%N pts ws) (sumZ ws) bb p0 p) as T.
+                  fuel sched D k (mk_items (v_clamp v) 0%N pts ws) (sumZ ws) bb p0 p) as T.
     destruct T as (A & B & Cc).
     + rewrite Forall_forall. intros it Hit. unfold vitem.
-      assert (Hc : In (co it) (to32 pts)) by (rewrite <- (mk_items_co pts ws 0%N Hlen); apply in_map, Hit).
-      unfold coords_ok in Hok. rewrite Forall_forall in Hok. exact (Hok _ Hc).
+      assert (Hc : In (co it) (to32c (v_clamp v) pts)) by (rewrite <- (mk_items_co (v_clamp v) pts ws 0%N Hlen); apply in_map, Hit).
+      pose proof (coords_okc (v_clamp v) pts Hok) as Hok'. rewrite Forall_forall in Hok'. exact (Hok' _ Hc).
     + rewrite mk_items_ix by exact Hlen. rewrite E2. reflexivity.
     + unfold pts. destruct ws; [cbn in Hlen; discriminate|]. cbn. discriminate.
     + exact H.
-    + rewrite (mk_items_co pts ws 0%N Hlen) in B. split; [lia|]. split; [exact B|]. intros _; exact Cc.
+    + rewrite (mk_items_co (v_clamp v) pts ws 0%N Hlen) in B. split; [lia|]. split; [exact B|]. intros _; exact Cc.
 Qed.
 
 Lemma nth_error_combine {A B} : forall (a : list A) (b : list B) i x y,
@@ -68,12 +99,15 @@ Proof.
   - right. eapply IH; eassumption.
 Qed.
 
-Lemma combine_valid pts (p : list N) : coords_ok pts ->
-  Forall (fun x : list spec_float * N => Forall (fun c => f32v c = true) (fst x)) (combine (to32 pts) p).
+Lemma combine_valid c pts (p : list N) : coords_ok pts ->
+  Forall (fun x : list spec_float * N => Forall (fun c => f32v c = true) (fst x)) (combine (to32c c pts) p).
 Proof.
-  intros Hok. rewrite Forall_forall. intros [c i] Hx. apply in_combine_l in Hx.
-  unfold coords_ok in Hok. rewrite Forall_forall in Hok. exact (Hok _ Hx).
+  intros Hok. rewrite Forall_forall. intros [q i] Hx. apply in_combine_l in Hx.
+  pose proof (coords_okc c pts Hok) as Hok'. rewrite Forall_forall in Hok'. exact (Hok' _ Hx).
 Qed.
+
+Lemma nth_error_map' {A B} (f : A -> B) : forall l i x, nth_error l i = Some x -> nth_error (map f l) i = Some (f x).
+Proof. induction l as [|y t IH]; intros [|i] x H; cbn [nth_error map] in *; try discriminate; [inversion H; reflexivity|auto]. Qed.
 
 (* corollary 1: every point belongs to exactly one part -- the result is a
    total function from points to ids (one id per point, all written) *)
@@ -93,11 +127,13 @@ Corollary rcb_equal_points_share_part : forall v fuel sched D k tol pts ws p0 p 
 Proof.
   intros v fuel sched D k tol pts ws p0 p i j c a b Hok H Hi Hj Ha Hb.
   destruct (rcb_bisect_tree _ _ _ _ _ _ _ _ _ _ Hok H) as (_ & (t & Pt & Tt) & _).
+  rewrite to32c_post in Pt.
+  apply (nth_error_map' (map (post32 (v_clamp v)))) in Hi, Hj.
   pose proof (nth_error_combine _ _ _ _ _ Hi Ha) as I1.
   pose proof (nth_error_combine _ _ _ _ _ Hj Hb) as I2.
   apply (Permutation_in _ (Permutation_sym Pt)) in I1, I2.
   assert (Hv : Forall (fun x : list spec_float * N => Forall (fun c => f32v c = true) (fst x)) t).
-  { pose proof (combine_valid pts p Hok) as Q. rewrite Forall_forall in *. intros x Hx. apply Q.
+  { pose proof (combine_valid (v_clamp v) pts p Hok) as Q. rewrite to32c_post in Q. rewrite Forall_forall in *. intros x Hx. apply Q.
     eapply Permutation_in; [exact Pt|exact Hx]. }
   exact (BisectTree_equal_coords spec_float flt f32v flt_irrefl D k 0%nat t Tt Hv _ _ I1 I2 eq_refl).
 Qed.
@@ -106,9 +142,9 @@ Qed.
 Theorem check_bisect32_sound : forall D k pts ids,
   check_bisect32 D k pts ids = true ->
   length pts = length ids /\ Forall (fun i => (i < 2 ^ N.of_nat k)%N) ids
-  /\ exists t, Permutation t (combine (to32 pts) ids) /\ BT D k 0%nat t.
+  /\ exists t, Permutation t (combine (to32c true pts) ids) /\ BT D k 0%nat t.
 Proof.
   intros D k pts ids H. unfold check_bisect32 in H.
   destruct (check_bisect_sound spec_float flt f32v flt_negtrans D k _ _ H) as (A & B & Cc).
-  unfold to32. rewrite map_length in A. auto.
+  fold (to32c true pts) in *. unfold to32c in A. rewrite map_length in A. auto.
 Qed.
